@@ -58,12 +58,12 @@ pub fn bfx(x: [f64; 2]) -> Bf {
 
 /// Generic double-double grid: exponents x (structured + generic fractions) x low-word variants.
 pub fn grid(exps: &[i32], quick: bool, stream: u64) -> Vec<[f64; 2]> {
-    let pos: Vec<u32> = vec![1, 2, 26, 51];
+    let pos: Vec<u32> = vec![1, 2, 3, 26, 27, 50, 51];
     let mut hf = if quick { run_bounded_at(52, 2, &pos) } else { run_bounded(52, 2) };
-    hf.extend(gen_fracs(if quick { 2 } else { 6 }));
-    hf.extend(weyl_fracs(if quick { 3 } else { 12 }, stream));
+    hf.extend(gen_fracs(if quick { 4 } else { 6 }));
+    hf.extend(weyl_fracs(if quick { 8 } else { 16 }, stream));
     let lf = vec![0u64, (1u64 << 52) - 1, weyl_fracs(1, stream + 1)[0]];
-    let gaps: Vec<i32> = if quick { vec![0, 1, 30] } else { vec![0, 1, 2, 10, 30, 53, 200] };
+    let gaps: Vec<i32> = if quick { vec![0, 1, 10, 30, 53] } else { vec![0, 1, 2, 10, 30, 53, 200] };
     let mut v = dd_grid(exps, &hf, &gaps, &lf, &[]);
     dedup(&mut v);
     v
